@@ -35,6 +35,7 @@ import (
 	"github.com/bufbuild/buf/private/pkg/slogext"
 	"github.com/bufbuild/buf/private/pkg/stringutil"
 	"github.com/bufbuild/buf/private/pkg/syserror"
+	"google.golang.org/protobuf/reflect/protoreflect"
 	"pluginrpc.com/pluginrpc"
 )
 
@@ -442,6 +443,11 @@ func ignoreFileLocation(
 		sourceLocations := protoreflectFileDescriptor.SourceLocations()
 		for _, associatedSourcePath := range associatedSourcePaths {
 			sourceLocation := sourceLocations.ByPath(associatedSourcePath)
+			if sourceLocation.Next != 0 {
+				// Several locations share this path (every extend block of a scope has the
+				// same path): use the one that encloses the annotated element.
+				sourceLocation = enclosingSourceLocation(sourceLocations, sourceLocation, sourceLocations.ByPath(sourcePath))
+			}
 			if leadingComments := sourceLocation.LeadingComments; leadingComments != "" {
 				for _, line := range stringutil.SplitTrimLinesNoEmpty(leadingComments) {
 					if checkCommentLineForCheckIgnore(line, config.CommentIgnorePrefix, ruleID) {
@@ -452,6 +458,30 @@ func ignoreFileLocation(
 		}
 	}
 	return false, nil
+}
+
+// enclosingSourceLocation returns the first source location with the same path as
+// firstSourceLocation that encloses the start of elementSourceLocation. If there is none,
+// firstSourceLocation is returned.
+func enclosingSourceLocation(
+	sourceLocations protoreflect.SourceLocations,
+	firstSourceLocation protoreflect.SourceLocation,
+	elementSourceLocation protoreflect.SourceLocation,
+) protoreflect.SourceLocation {
+	if elementSourceLocation.Path == nil {
+		return firstSourceLocation
+	}
+	line, column := elementSourceLocation.StartLine, elementSourceLocation.StartColumn
+	for sourceLocation := firstSourceLocation; ; sourceLocation = sourceLocations.Get(sourceLocation.Next) {
+		afterStart := line > sourceLocation.StartLine || (line == sourceLocation.StartLine && column >= sourceLocation.StartColumn)
+		beforeEnd := line < sourceLocation.EndLine || (line == sourceLocation.EndLine && column < sourceLocation.EndColumn)
+		if afterStart && beforeEnd {
+			return sourceLocation
+		}
+		if sourceLocation.Next == 0 {
+			return firstSourceLocation
+		}
+	}
 }
 
 // checkCommentLineForCheckIgnore checks that the comment line starts with the configured
